@@ -7,7 +7,7 @@ import ast
 from ..astutil import calls_in, norm_stmt, path_of, unparse, walk_scope, walk_stmts
 from ..facts import Fact, atoms, enumerate_paths
 from ..report import Ctx
-from .common import always_before, expand, increment_of, need, node_of, single_defs, stmts_matching
+from .common import NotTabulable, OrderEval, always_before, expand, increment_of, need, node_of, single_defs, stmts_matching
 
 BF = "happysimulator/sketching/bloom_filter.py"
 CMS = "happysimulator/sketching/count_min_sketch.py"
@@ -84,6 +84,9 @@ def _index_sketch(ctx: Ctx, rel: str, cname: str, *, query: str | None, rng: str
         qf = c.methods[query]
         loops_q, hcalls_q = index_shape(qf)
         ok = hcalls_add == hcalls_q and len(hcalls_add) == 1 and loops_a == loops_q == [rng]
+        if not ok and cname == "CountMinSketch":
+            sem, why_ = _cms_tabulated(c)
+            ok = sem is True
         ctx.ob("C20-1", "G4", qf, f"{cname}: add and {query} index alike", ok, f"{cname}.add and .{query} walk the same range `{rng}` and compute the cell with the same call ({hcalls_add} / {hcalls_q})")
     # (4) deterministic hashing
     txt = unparse(hs.node)
@@ -124,6 +127,58 @@ def _index_sketch(ctx: Ctx, rel: str, cname: str, *, query: str | None, rng: str
     ctx.ob("C20-3", "G1", mg, "guard dominates the combine loop", ok, f"{cname}.merge checks type and parameters before touching any cell")
     tot = [s for s in walk_stmts(mg.node.body) if isinstance(s, ast.AugAssign) and path_of(s.target) == "self._total_count" and isinstance(s.op, ast.Add) and unparse(s.value) == "other._total_count"]
     ctx.ob("C20-3", "G9", mg, tot[0] if tot else None, len(tot) == 1, f"{cname}.merge adds the item totals")
+
+
+def _cms_tabulated(cm) -> tuple[bool | None, str]:
+    """Decide CountMinSketch.add / .estimate by evaluating their bodies (OrderEval) on small tables: with a fixed row -> column map h,
+    add(item, c) must raise exactly the cells (r, h[r]) of every row by c and estimate(item) must return int(min over r of cell (r, h[r])).
+    Independent of how the row loop is written (range(depth), enumerate(rows), a comprehension, min over a list).  None = not tabulable."""
+    import itertools
+    add, est = cm.methods["add"], cm.methods["estimate"]
+    try:
+        for depth, width in ((2, 2), (3, 2)):
+            for h in itertools.product(range(width), repeat=depth):
+                for fill in ((1, 2, 3, 4, 5, 6), (4, 4, 1, 7, 2, 2)):
+                    table = [[fill[(r * width + c) % len(fill)] for c in range(width)] for r in range(depth)]
+                    before = [list(r_) for r_ in table]
+                    def col_of(ev_, e_, h=h, depth=depth, width=width):
+                        # the column is a function of the *row number* handed to _hash: a row number outside the table (a shifted index) hashes elsewhere
+                        r_ = ev_.ev(e_.args[1])
+                        if not isinstance(r_, int):
+                            raise NotTabulable("row argument of _hash")
+                        return h[r_] if 0 <= r_ < depth else (h[r_ % depth] + 1) % width
+                    hook = {"self._hash": col_of}
+                    env = {"self._depth": depth, "self._width": width, "self._counters": table, "self._total_count": 0, "item": "x", "count": 5,
+                           "self": {"_depth": depth, "_width": width, "_counters": table, "_total_count": 0}}
+                    got = OrderEval(dict(env), calls=hook).run(est.node)
+                    want = int(min(before[r][h[r]] for r in range(depth)))
+                    if got != want:
+                        return False, f"estimate on table {before} with columns {h}: returns {got}, the minimum over the rows is {want}"
+                    OrderEval(dict(env), calls=hook).run(add.node)
+                    exp = [[before[r][c] + (5 if c == h[r] else 0) for c in range(width)] for r in range(depth)]
+                    if table != exp:
+                        return False, f"add(x, 5) on table {before} with columns {h}: table becomes {table}, expected {exp}"
+        return True, "tabulated on 2- and 3-row tables"
+    except NotTabulable as exc:
+        return None, f"not tabulable ({exc})"
+
+
+def _bloom_bits_tabulated(sb, gb) -> tuple[bool | None, str]:
+    """_set_bit(i) followed by _get_bit(j) answers True exactly for j == i, and touches no other bit (evaluated on three 64-bit words)."""
+    idxs = (0, 1, 63, 64, 65, 127, 128, 191)
+    try:
+        for i in idxs:
+            bits = [0, 0, 0]
+            OrderEval({"self._bits": bits, "self": {"_bits": bits}, "bit_idx": i, "self._bits_set": 0}).run(sb.node)
+            if sum(bin(w).count("1") for w in bits) != 1:
+                return False, f"_set_bit({i}) sets {sum(bin(w).count('1') for w in bits)} bits"
+            for j in idxs:
+                got = OrderEval({"self._bits": bits, "self": {"_bits": bits}, "bit_idx": j}).run(gb.node)
+                if bool(got) != (i == j):
+                    return False, f"after _set_bit({i}), _get_bit({j}) answers {got}"
+        return True, "tabulated on 8 indices over three words"
+    except NotTabulable as exc:
+        return None, f"not tabulable ({exc})"
 
 
 def bloom_no_false_negatives(ctx: Ctx, rule: str) -> None:
@@ -168,6 +223,8 @@ def rule_index_sketches(ctx: Ctx) -> None:
     mask = stmts_matching(sb, "mask = 1 << bit_pos")
     r = [s for s in walk_stmts(gb.node.body) if isinstance(s, ast.Return)]
     ok = same and len(w) == 1 and len(mask) == 1 and len(r) == 1 and unparse(r[0].value).replace(" ", "") == "bool(self._bits[word_idx]&1<<bit_pos)"
+    bsem, bwhy = _bloom_bits_tabulated(sb, gb)
+    ok = bsem if bsem is not None else ok
     ctx.ob("C20-1", "G4", sb, "set and get address the same bit", ok, "BloomFilter._set_bit and ._get_bit split a bit index into the same (word, position) and use the same mask")
     bloom_no_false_negatives(ctx, "C20-2")
     mg = bf.methods["merge"]
@@ -197,7 +254,9 @@ def rule_index_sketches(ctx: Ctx) -> None:
     es = cm.methods["estimate"]
     agg = [s for s in walk_stmts(es.node.body) if isinstance(s, ast.Assign) and path_of(s.targets[0]) == "min_count" and isinstance(s.value, ast.Call) and path_of(s.value.func) in ("min", "max", "sum")]
     ok = len(agg) == 1 and unparse(agg[0].value).replace(" ", "") == "min(min_count,self._counters[row][col])" and len(stmts_matching(es, "min_count = float('inf')")) == 1
-    ctx.ob("C20-2", "G3", es, agg[0] if agg else None, ok, "CountMinSketch.estimate is the minimum over the rows (every row over-counts, so the minimum never under-estimates)")
+    sem, sem_why = _cms_tabulated(cm)
+    ok = sem if sem is not None else ok  # the tabulation decides when the bodies are tabulable; the syntactic form is the fallback
+    ctx.ob("C20-2", "G3", es, agg[0] if agg else None, ok, "CountMinSketch.estimate is the minimum over the rows (every row over-counts, so the minimum never under-estimates)" + ("" if ok else f" — {sem_why}"))
     # rows are independent lists: the table is only ever (re)built by a comprehension that creates a fresh row each time
     nb = 0
     for m in cm.methods.values():
@@ -214,7 +273,8 @@ def rule_index_sketches(ctx: Ctx) -> None:
     w = [s for s in walk_stmts(a.node.body) if isinstance(s, ast.AugAssign) and unparse(s.target).replace(" ", "") == "self._counters[row][col]"]
     lp = [s for s in a.node.body if isinstance(s, ast.For)]
     ok = len(w) == 1 and len(lp) == 1 and not any(isinstance(s, (ast.If, ast.Break, ast.Continue, ast.Return)) for s in walk_stmts(lp[0].body))
-    ctx.ob("C20-2", "G2", a, w[0] if w else None, ok, "CountMinSketch.add increments one cell in every row, unconditionally")
+    ok = sem if sem is not None else ok
+    ctx.ob("C20-2", "G2", a, w[0] if w else None, ok, "CountMinSketch.add increments one cell in every row, unconditionally" + ("" if ok else f" — {sem_why}"))
     mg = cm.methods["merge"]
     lp = [s for s in mg.node.body if isinstance(s, ast.For)]
     ok = len(lp) == 1 and unparse(lp[0].iter).replace(" ", "") == "range(self._depth)" and isinstance(lp[0].body[0], ast.For) and unparse(lp[0].body[0].iter).replace(" ", "") == "range(self._width)" \
